@@ -19,7 +19,9 @@
 (***************************************************************************)
 EXTENDS Integers, Sequences, FiniteSets, TLC
 
-CONSTANTS MaxStates, Classes    \* Classes: number of byte classes (stride = Classes here)
+CONSTANTS MaxStates,
+          Classes,    \* number of byte classes (alphabet_len)
+          Stride2     \* stride = 2^Stride2 >= Classes: a state's id is its index << Stride2
 
 DEAD == 0
 FAIL == 1
@@ -113,6 +115,40 @@ TargetsOK ==
             got == rows[x][c] IN
         /\ got = newid[<<want, cp>>]
         /\ got # DEAD => OwnerOf(got)[1] = want /\ (isAnch[got] <=> cp = "a")
+
+(* ---- premultiplied ids: the flat transition table the searches index ---- *)
+Stride == 2 ^ Stride2
+ASSUME Stride >= Classes
+Sid(x) == x * Stride                      \* index << stride2
+Idx(sid) == sid \div Stride               \* sid >> stride2
+TransLen == NewLen * Stride               \* state_len << stride2
+Flat ==      \* dfa.trans after the rewrite loop (which walks whole strides, padding included)
+    [k \in 0..(TransLen - 1) |->
+        IF (k % Stride) < Classes THEN Sid(rows[k \div Stride][k % Stride]) ELSE Sid(DEAD)]
+NextState(sid, c) == Flat[sid + c]        \* DFA::next_state
+(* matches: vec![vec![]; num_match_states] indexed by (sid >> stride2) - 2 *)
+NumMatchSlots == (OldMaxMatch - 1) * 2
+
+FlatOK ==
+    pc = "done" =>
+      \A x \in 0..(NewLen - 1) : \A c \in 0..(Classes - 1) :
+        /\ Sid(x) + c < TransLen
+        /\ NextState(Sid(x), c) = Sid(rows[x][c])
+        /\ Idx(NextState(Sid(x), c)) = rows[x][c]
+        \* rows of different states never share a table entry
+        /\ \A y \in 0..(NewLen - 1) : \A d \in 0..(Classes - 1) :
+              Sid(x) + c = Sid(y) + d => x = y /\ c = d
+(* the id comparisons of the search loop work on premultiplied ids *)
+PremultOrderOK ==
+    pc = "done" =>
+      \A x \in 0..(NewLen - 1) :
+        /\ (Sid(x) <= Sid(maxMatch)) <=> (x <= maxMatch)
+        /\ (Sid(x) <= Sid(maxSpecial)) <=> (x <= maxSpecial)
+(* every match state has its own slot in `matches`, inside the vector *)
+MatchSlotsOK ==
+    pc = "done" =>
+      \A x \in 2..(NewLen - 1) : x <= maxMatch =>
+        /\ Idx(Sid(x)) - 2 >= 0 /\ Idx(Sid(x)) - 2 < NumMatchSlots
 
 (* is_match(sid) == sid # DEAD /\ sid <= max_match_id ; is_special(sid) == sid <= max_special_id *)
 LayoutOK ==
